@@ -260,5 +260,223 @@ theorem roundtrip_text (cfg : Time.TsCfg) (hcfg : CfgOK cfg) (L : Layout) (hL : 
   obtain ⟨hne, hlex⟩ := parseJournal_rawLex cfg hcfg text rs hparse
   exact roundtrip_accepted cfg L hL div st st' rs ts hacc hne hlex hdw hdiv
 
+/-! ## 3. the division contract for the model's own division -/
+
+/-- what `handle_posting` returns: the value position of the raw posting, with a non-zero amount -/
+theorem handlePosting_inv (st st2 : Settings) (rp : RawPosting) (p : Posting)
+    (h : handlePosting st rp = .ok (p, st2)) :
+    ∃ vp, valuePosition rp.amount rp.unit = .ok vp ∧
+      p = ⟨rp.acct, vp.postComm, vp.postAmount, vp.txnAmount, vp.isTotal, vp.txnComm, rp.comment⟩ ∧
+      vp.postAmount.coeff ≠ 0 := by
+  unfold handlePosting at h
+  split at h
+  · cases h
+  · cases h
+  · split at h
+    · cases h
+    · cases h
+    · rename_i vp hvp
+      split at h
+      · cases h
+      · cases h
+      · rename_i a st2' hacct
+        obtain ⟨q, hq, hqe⟩ := (Outcome.map_ok _ _ _).mp h
+        cases hqe
+        have ha := C01.gocta_acct _ _ _ _ _ hacct
+        subst ha
+        unfold mkPosting at hq
+        split at hq
+        · cases hq
+        · rename_i hz
+          cases hq
+          exact ⟨vp, hvp, rfl, by simpa [Dec.isZero] using hz⟩
+
+/-- the quotient `Dec.divQuot` yields is a well-formed number whenever the dividend is representable -/
+theorem divQ_numWF (t a : Dec) (hs : t.scale ≤ 28) (hc : t.coeff ≤ max96) : NumWF (divQ t a) := by
+  have hz : NumWF Dec.zero := ⟨by simp [Dec.zero], by simp [Dec.zero], by simp [Dec.zero]⟩
+  unfold divQ Dec.divQuot
+  split
+  · exact hz
+  · split
+    · exact hz
+    · split
+      · rename_i ha ht hx
+        simp only [Option.getD_some]
+        refine ⟨by simp; omega, Nat.le_trans (Nat.div_le_self _ _) hc, ?_⟩
+        intro _
+        simp only
+        intro hq
+        have := Nat.div_mul_cancel (Nat.dvd_of_mod_eq_zero hx.2)
+        rw [hq] at this
+        omega
+      · exact hz
+
+/-- **C06 `accepted_unit_price_div_exact`.**  `DivExact` — the contract of `rust_decimal`'s `Div` that the round-trip
+    theorems assume of an abstract `div` — holds of the model's executable division `Dec.divQuot` on *every* posting
+    the acceptor produces.  An accepted `@` posting lies inside the exact domain by construction: `valuePosition`
+    answers `ok` only when `txnAmount = amount × price` is an exact product (`Dec.mul … = some _`; a price has ≤ 28
+    decimals and is not negative), and the amount is not zero (`Posting::from`); then `divQuot txnAmount amount` is
+    the price again (`divQuot_exact`; a zero price gives the zero quotient).  For every other posting the contract
+    is void.  Link to `rust_decimal`: the tie compares, on every generated `@` posting, the quotient the real
+    `Display for Posting` prints (`txn_amount / amount`) with the model's, byte for byte (gen/c06.py, identity export). -/
+theorem accepted_unit_price_div_exact (st st2 : Settings) (rp : RawPosting) (p : Posting)
+    (h : handlePosting st rp = .ok (p, st2)) : DivExact divQ p := by
+  obtain ⟨vp, hvp, rfl, hnz⟩ := handlePosting_inv st st2 rp p h
+  intro htot hne
+  simp only at htot hne
+  obtain ⟨hamt, hspec⟩ := C01.valuePosition_spec _ _ _ hvp
+  rcases hspec with ⟨heq, _⟩ | ⟨_, u, _, _, hcl⟩
+  · exact absurd heq.symm hne
+  · rcases hcl with ⟨v, _, _, hneg, hmul⟩ | ⟨v, _, _, _, ht⟩
+    · simp only
+      rw [hamt] at hnz ⊢
+      by_cases hv : v.value.coeff = 0
+      · -- zero price: the product is `ZERO`, and so is the quotient
+        have ht : vp.txnAmount = Dec.zero := by
+          unfold Dec.mul at hmul
+          simp only [Dec.isZero, hv, beq_self_eq_true, Bool.or_true, if_true, Option.some.injEq] at hmul
+          exact hmul.symm
+        have hq : divQ vp.txnAmount rp.amount = Dec.zero := by
+          rw [ht]; unfold divQ Dec.divQuot; simp [hnz, Dec.zero]
+        rw [hq, ht]
+        refine ⟨rfl, ?_⟩
+        unfold Dec.mul
+        simp [Dec.isZero, Dec.zero]
+      · obtain ⟨q, hq, hm, hs⟩ := divQuot_exact rp.amount v.value vp.txnAmount hnz hv hmul
+        have : divQ vp.txnAmount rp.amount = q := by unfold divQ; rw [hq]; rfl
+        rw [this]
+        exact ⟨by rw [hs]; exact hneg, hm⟩
+    · rw [ht] at htot; cases htot
+
+/-- where the postings of an accepted transaction come from -/
+theorem acceptTxn_posts (st st' : Settings) (r : RawTxn) (t : Txn) (h : acceptTxn st r = .ok (t, st')) :
+    t.header = r.header ∧ ∃ st1, acceptPostings st1 r.posts r.last = .ok (t.posts, st') := by
+  unfold acceptTxn at h
+  split at h
+  · cases h
+  · cases h
+  · rename_i st1 _
+    split at h
+    · cases h
+    · cases h
+    · rename_i ps st2 hps
+      split at h
+      · cases h
+      · split at h
+        · cases h
+        · split at h
+          · exact absurd h (Outcome.inexact_ne_ok _ _)
+          · split at h
+            · cases h; exact ⟨rfl, st1, hps⟩
+            · cases h
+
+/-- every posting of an accepted posting list was produced by `handle_posting`, or it is the implicit last posting,
+    which is in the transaction's own commodity -/
+theorem acceptPostings_inv (st st' : Settings) (posts : List RawPosting) (last : Option (Path × Option String))
+    (all : List Posting) (h : acceptPostings st posts last = .ok (all, st')) :
+    ∀ p ∈ all, (∃ rp ∈ posts, ∃ s1 s2, handlePosting s1 rp = .ok (p, s2)) ∨
+      (p.txnComm = p.comm ∧ p.txnAmount = p.amount) := by
+  unfold acceptPostings at h
+  split at h
+  · cases h
+  · cases h
+  · rename_i ps st1 hps
+    have hmain := mapMS_ok handlePosting posts st st1 ps hps
+    split at h
+    · cases h
+    · rename_i p0 rest
+      split at h
+      · cases h
+        intro p hp
+        obtain ⟨rp, hrp, s1, s2, hf⟩ := hmain p hp
+        exact Or.inl ⟨rp, hrp, s1, s2, hf⟩
+      · split at h
+        · exact absurd h (Outcome.inexact_ne_ok _ _)
+        · split at h
+          · cases h
+          · cases h
+          · obtain ⟨l, hl, hle⟩ := (Outcome.map_ok _ _ _).mp h
+            cases hle
+            intro p hp
+            rcases List.mem_append.mp hp with hp | hp
+            · obtain ⟨rp, hrp, s1, s2, hf⟩ := hmain p hp
+              exact Or.inl ⟨rp, hrp, s1, s2, hf⟩
+            · simp at hp; subst hp
+              obtain ⟨rfl, _⟩ := C01.mkPosting_ok _ _ hl
+              exact Or.inr ⟨rfl, rfl⟩
+
+/-- `DivExact` of `Dec.divQuot` on every posting of an accepted transaction … -/
+theorem acceptTxn_divExact (st st' : Settings) (r : RawTxn) (t : Txn) (h : acceptTxn st r = .ok (t, st')) :
+    ∀ p ∈ t.posts, DivExact divQ p := by
+  obtain ⟨_, st1, hps⟩ := acceptTxn_posts st st' r t h
+  intro p hp
+  rcases acceptPostings_inv st1 st' r.posts r.last t.posts hps p hp with ⟨rp, _, s1, s2, hf⟩ | ⟨hc, _⟩
+  · exact accepted_unit_price_div_exact s1 s2 rp p hf
+  · intro _ hne; exact absurd hc hne
+
+/-- … and the quotients it prints are well-formed numbers (`accepted_div_wf`): the transaction amount of an accepted
+    posting is representable (a parsed number, an exact product, or the negated exact sum) -/
+theorem accepted_div_wf (st st' : Settings) (r : RawTxn) (t : Txn) (h : acceptTxn st r = .ok (t, st')) (hl : RawLex r) :
+    ∀ p ∈ t.posts, NumWF (divQ p.txnAmount p.amount) := by
+  obtain ⟨_, st1, hps⟩ := acceptTxn_posts st st' r t h
+  have hwf := accept_wf (fun _ _ => Dec.zero) st st' r t h hl
+    (fun _ _ _ => ⟨by simp [Dec.zero], by simp [Dec.zero], by simp [Dec.zero]⟩)
+  intro p hp
+  rcases acceptPostings_inv st1 st' r.posts r.last t.posts hps p hp with ⟨rp, hrp, s1, s2, hf⟩ | ⟨_, ha⟩
+  · obtain ⟨_, h1, h2⟩ := handlePosting_wf (fun _ _ => Dec.zero) s1 s2 rp p hf (hl.posts rp hrp)
+      (fun _ => ⟨by simp [Dec.zero], by simp [Dec.zero], by simp [Dec.zero]⟩)
+    exact divQ_numWF _ _ h1 h2
+  · have := (hwf.posts p hp).amount
+    rw [ha]
+    exact divQ_numWF _ _ this.1 this.2.1
+
+/-- **C06 `roundtrip_text_divQuot`.**  The round trip with the model's executable division: *no* hypothesis about
+    division, none about lexical form, none per instant.  Parse a journal text (fixed-offset zone of whole minutes),
+    accept it, print the accepted transactions with `Dec.divQuot` in any layout of the family, load the printed text:
+    the result is the originally loaded list and settings state. -/
+theorem roundtrip_text_divQuot (cfg : Time.TsCfg) (hcfg : CfgOK cfg) (L : Layout) (hL : LayoutOK L)
+    (st st' : Settings) (text : List Char) (rs : List RawTxn) (ts : List Txn)
+    (hparse : parseJournal cfg text = some rs) (hacc : acceptJournal st rs = .ok (ts, st')) :
+    loadText cfg st (printL L divQ ts) = loadJournal st rs := by
+  obtain ⟨_, hlex⟩ := parseJournal_rawLex cfg hcfg text rs hparse
+  refine roundtrip_text cfg hcfg L hL divQ st st' text rs ts hparse hacc ?_ ?_
+  · intro t ht p hp _
+    obtain ⟨r, hr, s1, s2, hf⟩ := mapMS_ok acceptTxn rs st st' ts hacc t ht
+    exact accepted_div_wf s1 s2 r t hf (hlex r hr) p hp
+  · intro t ht p hp
+    obtain ⟨r, _, s1, s2, hf⟩ := mapMS_ok acceptTxn rs st st' ts hacc t ht
+    exact acceptTxn_divExact s1 s2 r t hf p hp
+
+/-- the same for parse trees given directly (`roundtrip_accepted` without its two division hypotheses) -/
+theorem roundtrip_accepted_divQuot (cfg : Time.TsCfg) (L : Layout) (hL : LayoutOK L)
+    (st st' : Settings) (rs : List RawTxn) (ts : List Txn)
+    (hacc : acceptJournal st rs = .ok (ts, st')) (hrs : rs ≠ []) (hlex : ∀ r ∈ rs, RawLex r) :
+    loadText cfg st (printL L divQ ts) = loadJournal st rs := by
+  refine roundtrip_accepted cfg L hL divQ st st' rs ts hacc hrs hlex ?_ ?_
+  · intro t ht p hp _
+    obtain ⟨r, hr, s1, s2, hf⟩ := mapMS_ok acceptTxn rs st st' ts hacc t ht
+    exact accepted_div_wf s1 s2 r t hf (hlex r hr) p hp
+  · intro t ht p hp
+    obtain ⟨r, _, s1, s2, hf⟩ := mapMS_ok acceptTxn rs st st' ts hacc t ht
+    exact acceptTxn_divExact s1 s2 r t hf p hp
+
+/-! ## non-vacuity -/
+
+theorem cfgOK_utc : CfgOK utc := by
+  refine ⟨⟨by decide, by decide⟩, by decide, by decide⟩
+
+/-- `+05:45`, default time `23:59:59.999999999` -/
+example : CfgOK ⟨20700, (23, 59, 59, 999999999)⟩ := ⟨⟨by decide, by decide⟩, by decide, by decide⟩
+
+/-- the hypotheses of `roundtrip_text_divQuot` hold of a journal with a code, a description with blanks, an empty
+    comment, an `@` price, a `=` total with negative amounts and an implicit amount -/
+def sample2 : List Char :=
+  "2024-03-01T12:00:00.5+02:00 (c) 'd  e\n ;\n a 1.50 X @ 2.0 Y\n b -3 Z = -4.5 Y\n c\n".toList
+
+set_option maxRecDepth 40000 in
+example : (match parseJournal utc sample2 with
+    | some rs => (acceptJournal lax rs).isOk
+    | none => false) = true := by decide
+
 end C06
 end Tackler
